@@ -89,6 +89,18 @@ CLAIMS = {
              'only and uses it only through provided_service/service_time/search*. The numeric agreements (supply '
              'equivalences as functions, NP-EDF max = FIFO, event source = FIFO) are not decided.',
         ref='7/C19'),
+    'C20': dict(
+        technique='site enumeration with path-condition discharge (linear implication over typed HIR), loop/iterator termination patterns, cross-profile term comparison',
+        text='SITE: every raw subtraction, index, unwrap/expect, division and reachable panic/assert of /repo, enumerated in a '
+             'debug (assertions + overflow checks) and a release configuration, is implied safe by its path condition '
+             '(branches, early returns, && operands, upstream filter/take_while stages, loop ranges, closure-parameter '
+             'lower bounds; private helpers are analysed in each calling context) or carries a vetted invariant '
+             '(spec/vetted_sites.json); anything else -- e.g. saturating_sub turned into `-`, a removed guard -- is a '
+             'violation. TERM: loops match a strict-progress pattern or a vetted argument; no draining consumer on an '
+             'unbounded iterator; no next/peek over filter(infinite). PROFILE: every function and closure computes the same '
+             'canonical term in both configurations modulo one vetted identity wrapper. Positive/negative controls on a '
+             'fixtures crate run every time. Not decided: that the vetted invariants hold; floating point.',
+        ref='7/C20'),
 }
 
 NOT_YET = 'clauses designed in DESIGN.md section 7 but not yet implemented in this commit'
